@@ -658,4 +658,57 @@ def rule_optional_columns(ck):
                     'raises IndexError instead of being decoded' % (u(n), cols[const_value(n.slice)], cols[const_value(n.slice)])))
 
 
-RULES = [rule_dispatch, rule_slots, rule_kinds, rule_rollover, rule_rank, rule_records, rule_time_and_order, rule_header, rule_value_width, rule_optional_columns]
+def rule_subsecond(ck):
+    """D4.subsecond: the origin time is decoded "at the format's resolution" - NDK writes tenths of a second, the EMRCMT table a decimal
+    part of the seconds.  The helper that parses `%S.%f` must hand the parsed fraction on (dt.microsecond), and each reader that builds the
+    datetime from the helper's dictionary must read every component the helper writes: writer and readers of one table agree."""
+    P = ck.prog
+    ck.clause('D4')
+    h = P.func('csep.utils.readers._parse_datetime_to_zmap')
+    fmts = [const_value(k.value) for c in all_nodes(h) if isinstance(c, ast.Call) for k in c.keywords if k.arg == 'format' and isinstance(const_value(k.value), str)]
+    fmts += [const_value(a) for c in all_nodes(h) if isinstance(c, ast.Call) and (callee(P, h, c) or '').endswith('strptime_to_utc_datetime') for a in c.args[1:2]
+             if isinstance(const_value(a), str)]
+    written = {}
+    for n in all_nodes(h):
+        if isinstance(n, ast.Assign) and isinstance(n.targets[0], ast.Subscript) and isinstance(const_value(n.targets[0].slice), str):
+            written[const_value(n.targets[0].slice)] = n.value
+        if isinstance(n, ast.Dict) and n.keys and all(isinstance(const_value(k), str) for k in n.keys if k is not None):
+            for k, v in zip(n.keys, n.values):
+                if k is not None:
+                    written[const_value(k)] = v
+    o = ck.ob('C19-D4.subsecond', h, 'the parsed fraction of the second is handed on', h.node)
+    frac = any('%f' in f_ for f_ in fmts)
+    exh = Expander(P, h)
+
+    def _exp(v):
+        try:
+            return exh.expand(v)
+        except Inconclusive:
+            return v
+    has = any(isinstance(x, ast.Attribute) and x.attr == 'microsecond' for v in written.values() for x in ast.walk(_exp(v)))
+    if not fmts or not written:
+        o.unknown('cannot find the format / the components the helper returns')
+    elif frac and not has:
+        o.fail('the helper parses `%%S.%%f` but returns only %s: the fraction of the second the record carries (NDK: tenths) is dropped, the '
+               'origin time is decoded to the whole second below' % sorted(written))
+    else:
+        o.ok('components: %s' % sorted(written))
+    for f in P.funcs.values():
+        if f.module.name != 'csep.utils.readers' or f is h:
+            continue
+        calls = calls_in(P, f, h.qualname)
+        for c in calls:
+            st = stmt_of(c)
+            var = st.targets[0].id if isinstance(st, ast.Assign) and isinstance(st.targets[0], ast.Name) else None
+            if var is None:
+                continue
+            read = {const_value(x.slice) for x in all_nodes(f) if isinstance(x, ast.Subscript) and isinstance(x.ctx, ast.Load) and isinstance(x.value, ast.Name)
+                    and x.value.id == var and isinstance(const_value(x.slice), str)}
+            oo = ck.ob('C19-D4.components', f, 'every component of the parsed time is used', c)
+            miss = sorted(set(written) - read)
+            (oo.fail('%s builds the origin time without %s of the dictionary returned by %s: that part of the encoded time is lost'
+                     % (f.short, miss, h.short)) if miss and read else oo.ok('reads %s' % sorted(read)))
+
+
+RULES = [rule_dispatch, rule_slots, rule_kinds, rule_rollover, rule_rank, rule_records, rule_time_and_order, rule_header, rule_value_width, rule_optional_columns,
+         rule_subsecond]
